@@ -10,6 +10,10 @@ import numpy as np
 from .tflschema import ENUMS
 
 
+SINGLE_ROUNDED_ADD_OPERAND = os.environ.get("VERIF_ADD_DOUBLE_ROUNDING", "0") != "1"
+ADD16_TOL = int(os.environ.get("VERIF_ADD16_TOL", 0))
+
+
 class Unsupported(Exception):
     pass
 
@@ -87,7 +91,9 @@ def act_range(act, dtype, scale, zp):
     lo, hi = INT_RANGE[dtype]
 
     def q(v):
-        return zp + int(math.floor(v / float(np.float32(scale)) + 0.5)) if v >= 0 else zp + int(-math.floor(-v / float(np.float32(scale)) + 0.5))
+        # kernel_util Quantize(): float f / float scale in single precision, then std::round (half away from zero)
+        t = float(np.float32(v) / np.float32(scale))
+        return zp + (int(math.floor(t + 0.5)) if t >= 0 else -int(math.floor(-t + 0.5)))
 
     if act == 1:  # RELU
         lo = max(lo, q(0.0))
@@ -342,14 +348,24 @@ class Interp:
         m1, sh1 = quantize_multiplier(float(np.float32(s1)) / twice_max)
         m2, sh2 = quantize_multiplier(float(np.float32(s2)) / twice_max)
         mo, sho = quantize_multiplier(twice_max / ((1 << left_shift) * float(np.float32(so))))
-        sa = mbqm((a - z1) * (1 << left_shift), m1, sh1)
-        sb = mbqm((b - z2) * (1 << left_shift), m2, sh2)
+        def operand(v, m_, sh_):
+            """input scaling (v << left_shift) * m_ * 2^sh_ with ONE rounding.  The reference kernel rounds twice here (doubling high
+            mul, then the rounding right shift by -sh_); the NPU's operand scaling is a single multiply-shift, and the two differ by
+            one in about 1 of 10^4 elements, which shows at exact ties of the output rounding.  Which of the two the silicon does is
+            not documented bit by bit, so the reference follows the datapath model here (DESIGN 11.3): everything else about
+            ADD / SUB stays bit-exact instead of being compared within one step."""
+            if SINGLE_ROUNDED_ADD_OPERAND and left_shift + sh_ >= 0:
+                return srdhm(v * (np.int64(1) << (left_shift + sh_)), m_)
+            return mbqm(v * (1 << left_shift), m_, sh_)
+
+        sa = operand(a - z1, m1, sh1)
+        sb = operand(b - z2, m2, sh2)
         raw = sa - sb if sub else sa + sb
         y = mbqm(raw, mo, sho) + zo
         lo, hi = act_range(op.options[1].get("FusedActivationFunction", 0), self.m.tensors[op.outputs[0]].type, so, zo)
         # 16-bit: the datapath model rounds the rescaled operand once where the reference rounds twice; they differ by one step
         # about once in 10^4 elements on the unchanged tree, so this family is compared within +-1 (DESIGN Appendix A, rung 2)
-        self.put(op.outputs[0], np.clip(y, lo, hi), 1 if t == "INT16" else 0, [a_i, b_i])
+        self.put(op.outputs[0], np.clip(y, lo, hi), ADD16_TOL if t == "INT16" else 0, [a_i, b_i])
 
     def op_SUB(self, op):
         self.op_ADD(op, sub=True)
